@@ -816,7 +816,14 @@ def rule_r11(ctx) -> List[R.Inst]:
                 continue
         lp = loops[0] if factory is None else factory[0]
         kvar = [x.id for x in ast.walk(lp.target) if isinstance(x, ast.Name)][0]
-        fns = {x.name: x for x in (lp.body if factory is None else factory[2].body) if isinstance(x, ast.FunctionDef)}
+        fns = {x.name: x for x in lp.body if isinstance(x, ast.FunctionDef)}
+        if factory is not None:
+            # the accessor pair specialised for this decorator's call of the factory (Model._synthesise_accessors): the key is
+            # the defaulted parameter k_ again, constant factory arguments are folded in
+            for nm_ in ("getter", "setter"):
+                qs_ = f"reamber.base.Property.{deco}.<locals>.gen_props.<locals>.{nm_}"
+                if qs_ in M.funcs:
+                    fns[nm_] = M.funcs[qs_].node
         # form B: the key is the factory parameter that receives the loop variable — bound per call, never late
         fparam = None
         if factory is not None:
@@ -839,7 +846,7 @@ def rule_r11(ctx) -> List[R.Inst]:
             dflt = dict(zip([a.arg for a in args][::-1], f.args.defaults[::-1]))
             bound = [a for a, d in dflt.items() if isinstance(d, ast.Name) and d.id == kvar]
             late = any(isinstance(x, ast.Name) and x.id == kvar for b in f.body for x in ast.walk(b))
-            if factory is not None:
+            if factory is not None and not bound:
                 bound, late = [fparam], False
             if not bound or late:
                 insts.append(R.viol("C16.R11", key, file, f.lineno,
